@@ -388,17 +388,20 @@ def check_bytes(data, name, params, log=None):
                              'control %s (%s) is served by a rate-%d unit' % (
                                  nm, rate, slot_rate[s]),
                              observed=slot_rate[s], expected=want_rate[rate])
-    # local buffers: MaxLocalBufs announces the number of LocalBuf units
+    # local buffers: one MaxLocalBufs unit announces room for at least the
+    # LocalBuf units of the file (a LocalBuf missing from the file is C01's
+    # clause, so "more" is not judged)
     nlb = sum(1 for u in d.ugens if u.name == 'LocalBuf')
     mlb = [u for u in d.ugens if u.name == 'MaxLocalBufs']
     if nlb or mlb:
         val = None
         if len(mlb) == 1 and len(mlb[0].inputs) == 1 and mlb[0].inputs[0][0] == -1:
             val = d.constants[mlb[0].inputs[0][1]]
-        if val != float(nlb):
+        if val is None or val < nlb or val != int(val):
             fail('C02.consistent', 'C02.consistent:max-local-bufs',
                  '%d LocalBuf units but MaxLocalBufs says %r (%d MaxLocalBufs '
-                 'units)' % (nlb, val, len(mlb)), observed=val, expected=nlb)
+                 'units)' % (nlb, val, len(mlb)), observed=val,
+                 expected='>= %d' % nlb)
     # source units (structural programs)
     if log is not None and 'units' in log:
         if 'expansion_shape' in log:
@@ -892,13 +895,12 @@ def main(rep):
                           k, nsplit))
             tasks.append(('gg-scope', 'AKP1m', [ops3, ops3],
                           ('last', 'first+last'), k, nsplit))
-            if not quick:
-                tasks.append(('gg-scope', 'AK2', [ops3, ops3, ops3],
-                              ('last', 'first+last'), k, nsplit))
-        ngg = 6000 if quick else 120000
+            tasks.append(('gg-scope', 'AK2' if not quick else 'A2',
+                          [ops3, ops3, ops3], ('last', 'first+last'), k, nsplit))
+        ngg = 20000 if quick else 120000
         for b in range(ngg // 250):
             tasks.append(('gg-random', base + b, 250))
-        nst = 6000 if quick else 100000
+        nst = 24000 if quick else 100000
         for b in range(nst // 100):
             steps = (12, 40, 120, 330)[b % 4]
             tasks.append(('struct', base + 7919 + b, 100 if steps < 300 else 25,
@@ -940,8 +942,8 @@ def main(rep):
         descr = {
             'gg-scope': ('format/c01-small', 'every well-formed program of the '
                          'C01 scopes: 1 operator node over ABKLRP012mh with all '
-                         'operators, 2 (thorough: 3) operator nodes over + - * '
-                         'neg', True),
+                         'operators, 2 operator nodes over AKP1m and 3 over A2 '
+                         '(thorough: AK2) with + - * neg', True),
             'gg-random': ('format/c01-random', 'seeded random C01 programs '
                           '(graphgen.random_program, up to 6/12/20 operator '
                           'nodes)', False),
